@@ -206,7 +206,7 @@ fn sweep_scripts(id: &str) -> Vec<(&'static str, u64, u64, ScriptFn)> {
     match id {
         "C02" => vec![("wrap", 1000, 100_000, wrap_script), ("disconnect-given-up-then-resume", 300, 30_000, crate::scripts::disconnect_given_up_script), ("flush-fault-then-resume", 300, 30_000, crate::scripts::c06_flush_fault_script)],
         "C05" | "C18" => vec![("many-fresh-sessions", 24, 600, crate::scripts::fresh_sessions_script)],
-        "C03" => vec![("window-saturation", 500, 50_000, crate::scripts::saturation_script), ("wrap", 400, 40_000, wrap_script), ("disconnect-given-up-then-resume", 300, 30_000, crate::scripts::disconnect_given_up_script), ("release-on-a-full-arena", 300, 30_000, crate::scripts::release_on_a_full_arena_script)],
+        "C03" => vec![("window-saturation", 500, 50_000, crate::scripts::saturation_script), ("wrap", 400, 40_000, wrap_script), ("disconnect-given-up-then-resume", 300, 30_000, crate::scripts::disconnect_given_up_script), ("release-on-a-full-arena", 300, 30_000, crate::scripts::release_on_a_full_arena_script), ("replay-blocked-by-a-smaller-limit", 300, 30_000, crate::scripts::replay_blocked_by_a_smaller_limit_script)],
         "C16" => vec![("wrap", 300, 30_000, wrap_script), ("window-saturation", 200, 20_000, crate::scripts::saturation_script), ("ping-between-pieces", 200, 20_000, crate::scripts::ping_between_pieces_script), ("release-on-a-full-arena", 200, 20_000, crate::scripts::release_on_a_full_arena_script), ("probe-due-on-a-full-send-buffer", 200, 20_000, crate::scripts::stalled_probe_script)],
         "C01" => vec![("ping-between-pieces", 200, 20_000, crate::scripts::ping_between_pieces_script), ("wrap", 400, 40_000, wrap_script), ("disconnect-given-up-then-resume", 300, 30_000, crate::scripts::disconnect_given_up_script)],
         "C11" => vec![("partial-then-disconnect", 300, 30_000, crate::scripts::c11_script)],
@@ -534,6 +534,19 @@ fn wrap_script(r: &mut Rng, _index: u64, _tier: Tier) -> (CaseCfg, Vec<Step>) {
         }
         for _ in 0..2 * n_long + 1 {
             s.push(poll0());
+        }
+        // one case in three: the broker repeats a PUBREC after the PUBREL went out, this time
+        // with a failure code (the call that reads it reports the rejection, the connection
+        // stays up): the exchange still waits for its PUBCOMP and its identifier stays in use
+        if r.chance(1, 3) {
+            for k in 0..n_long {
+                if r.chance(2, 3) {
+                    let pid = ((base as u32 - 1 + k as u32) % 65535 + 1) as u16;
+                    s.push(Step::Broker(BrokerAct::Send(crate::refcodec::SPacket::PubRec { pid, reason: Some(*r.pick(&[0x80u8, 0x87, 0x97, 0x99])), props: None })));
+                    s.push(poll0());
+                    s.push(poll0());
+                }
+            }
         }
     }
     if crowded {
